@@ -201,7 +201,9 @@ End C17.
     [numprint] (the client's formatting of a float64) and [numval] (strconv.ParseFloat), tied by the
     four hypotheses below.  [tclean fl numclean j]: the numbers of [j] are [numclean], and (for
     encoding/json, which rewrites bytes that are not UTF-8) its strings and member names are valid
-    UTF-8 ([utf8_ok]: exactly the sequences utf8.DecodeRune accepts).  Since the third repair every
+    UTF-8 ([utf8_ok]: exactly the sequences utf8.DecodeRune accepts).  [parse_json] is [parse_text]
+    within the libraries' nesting limit (more than 10000 open arrays / objects: refused);
+    [text_clean numprint numclean j] = [tclean StdJson numclean j] and the text of [j] stays within the limit.  Since the third repair every
     transport reads JSON with encoding/json. *)
 Section C17Bytes.
   Variable numval : bytes -> option N.
@@ -220,10 +222,10 @@ Section C17Bytes.
   (** envelope_roundtrip over bytes, all six shapes: the operation is read back from the bytes of its
       canonical envelope *)
   Theorem C17_envelope_roundtrip_bytes : forall t id o,
-    wf_op o = true -> carries t o = true -> (forall j, In j (sent_json t o) -> text_clean numclean j) ->
-    decode fixed (parse_text StdJson numval) (parse_text StdJson numval) (encode (print numprint) t id o) = Some (o, None).
+    wf_op o = true -> carries t o = true -> (forall j, In j (sent_json t o) -> text_clean numprint numclean j) ->
+    decode fixed (parse_json StdJson numval) (parse_json StdJson numval) (encode (print numprint) t id o) = Some (o, None).
   Proof.
-    exact (C17_envelope_roundtrip (print numprint) (parse_text StdJson numval) (parse_text StdJson numval) (text_clean numclean)
+    exact (C17_envelope_roundtrip (print numprint) (parse_json StdJson numval) (parse_json StdJson numval) (text_clean numprint numclean)
              (std_faithful_bytes numval numprint numclean num_nonempty num_chars num_grammar num_back)
              (std_faithful_bytes numval numprint numclean num_nonempty num_chars num_grammar num_back)
              (render_nonempty_bytes_clean numprint numclean num_nonempty num_chars)).
@@ -242,17 +244,17 @@ Section C17Bytes.
            (sha : bytes -> bytes) (not_found : Resp) (st : PersistedQueryModel.storage),
     let pq := pq_of Resp (event Features Ctx Doc) sha not_found st in
     let resp := respond no_features parse_validate is_subscription execute run_subscription pq marshal fixed
-                        (parse_text StdJson numval) (parse_text StdJson numval) (print numprint) in
+                        (parse_json StdJson numval) (parse_json StdJson numval) (print numprint) in
     forall t1 t2 (a : api Schema Features Ctx) c id1 id2 o,
     wf_op o = true -> carries t1 o = true -> carries t2 o = true ->
-    (forall j, In j (sent_json t1 o) \/ In j (sent_json t2 o) -> text_clean numclean j) ->
+    (forall j, In j (sent_json t1 o) \/ In j (sent_json t2 o) -> text_clean numprint numclean j) ->
     (forall d cost, parse_validate (a_schema a) (features_of no_features a c) (a_default_cost a) (o_query o) (o_opname o) (o_vars o) = PVOk d cost ->
                     is_subscription d (o_opname o) = false) ->
     (forall r tr, validate_execute parse_validate execute a (features_of no_features a c) (request_of o) = (r, tr) -> marshal r <> None) ->
     resp t1 a c id1 o = resp t2 a c id2 o /\ exists body, fst (resp t1 a c id1 o) = Some [body].
   Proof.
     exact (fun Schema Features Ctx Doc Resp no_features parse_validate is_subscription execute run_subscription marshal sha not_found st =>
-             C17_transport_same_response (print numprint) (parse_text StdJson numval) (parse_text StdJson numval) (text_clean numclean)
+             C17_transport_same_response (print numprint) (parse_json StdJson numval) (parse_json StdJson numval) (text_clean numprint numclean)
                (std_faithful_bytes numval numprint numclean num_nonempty num_chars num_grammar num_back)
                (std_faithful_bytes numval numprint numclean num_nonempty num_chars num_grammar num_back)
                (render_nonempty_bytes_clean numprint numclean num_nonempty num_chars)
@@ -281,12 +283,12 @@ Section C17Bytes.
            (sha : bytes -> bytes) (not_found : Resp) (st : PersistedQueryModel.storage),
     let pq := pq_of Resp (event Features Ctx Doc) sha not_found st in
     let resp := respond no_features parse_validate is_subscription execute run_subscription pq marshal fixed
-                        (parse_text StdJson numval) (parse_text StdJson numval) (print numprint) in
+                        (parse_json StdJson numval) (parse_json StdJson numval) (print numprint) in
     let wire := wire_respond no_features parse_validate is_subscription execute run_subscription pq marshal fixed
-                        (parse_text StdJson numval) (parse_text StdJson numval) (print numprint) in
+                        (parse_json StdJson numval) (parse_json StdJson numval) (print numprint) in
     forall t1 t2 (a : api Schema Features Ctx) c id1 id2 o,
     wf_op o = true -> carries t1 o = true -> carries t2 o = true ->
-    (forall j, In j (sent_json t1 o) \/ In j (sent_json t2 o) -> text_clean numclean j) ->
+    (forall j, In j (sent_json t1 o) \/ In j (sent_json t2 o) -> text_clean numprint numclean j) ->
     (forall d cost, parse_validate (a_schema a) (features_of no_features a c) (a_default_cost a) (o_query o) (o_opname o) (o_vars o) = PVOk d cost ->
                     is_subscription d (o_opname o) = false) ->
     (forall r tr, validate_execute parse_validate execute a (features_of no_features a c) (request_of o) = (r, tr) -> marshal r <> None) ->
@@ -295,7 +297,7 @@ Section C17Bytes.
       snd (resp t1 a c id1 o) = snd (resp t2 a c id2 o).
   Proof.
     exact (fun Schema Features Ctx Doc Resp no_features parse_validate is_subscription execute run_subscription marshal sha not_found st =>
-             transport_same_wire_answer (print numprint) (parse_text StdJson numval) (parse_text StdJson numval) (text_clean numclean)
+             transport_same_wire_answer (print numprint) (parse_json StdJson numval) (parse_json StdJson numval) (text_clean numprint numclean)
                (std_faithful_bytes numval numprint numclean num_nonempty num_chars num_grammar num_back)
                (std_faithful_bytes numval numprint numclean num_nonempty num_chars num_grammar num_back)
                (render_nonempty_bytes_clean numprint numclean num_nonempty num_chars)
